@@ -338,7 +338,7 @@ impl Database {
                 dirty_pages.iter().map(|&p| (table_id, p)).collect();
             let _page_locks = self.shared.page_locks.page_write_multi(&page_tuples);
 
-            let pages_to_flush = self.shared.dirty_tracker.drain_for_table(table_id);
+            let pages_to_flush = self.shared.dirty_tracker.drain_for_table_with_header(table_id);
             let _ = self.collect_pages_for_table(
                 table_id,
                 schema_name,
@@ -411,7 +411,7 @@ impl Database {
                     continue;
                 };
 
-                let pages_to_flush = self.shared.dirty_tracker.drain_for_table(table_id);
+                let pages_to_flush = self.shared.dirty_tracker.drain_for_table_with_header(table_id);
 
                 if pages_to_flush.is_empty() {
                     continue;
